@@ -90,7 +90,8 @@ def gen_series(r, tier='quick', **force):
                             'holes': (None if a[s][t][v] == 0 else a[s][t][v])}[pat]
                     tab[k][(s, t, v)] = code
     normal = np.cross(rowc, colc)
-    acq_pat = force.get('acq', r.choice(['asc', 'desc', 'interleaved', 'irregular', 'equal', 'inconsistent', 'none', 'partial']))
+    acq_pat = force.get('acq', r.choice(['asc', 'desc', 'interleaved', 'irregular', 'equal', 'inconsistent', 'none', 'partial',
+                                         'one_inconsistent']))
     tr_pat = r.choice(['same', 'same', 'vary', 'none', 'jitter'])
     if ordering in ('guess_vol', 'guess_file', 'none') and tr_pat in ('vary', 'jitter'):
         tr_pat = 'same'
@@ -98,7 +99,11 @@ def gen_series(r, tier='quick', **force):
     slice_t = {'asc': list(range(S)), 'desc': list(range(S - 1, -1, -1)),
                'interleaved': [(i // 2 if i % 2 == 0 else (S + 1) // 2 + i // 2) for i in range(S)],
                'irregular': [r.randint(0, 5) for _ in range(S)], 'equal': [0] * S,
-               'inconsistent': list(range(S)), 'none': None, 'partial': list(range(S))}[acq_pat]
+               'inconsistent': list(range(S)), 'none': None, 'partial': list(range(S)),
+               'one_inconsistent': list(range(S))}[acq_pat]
+    # 'one_inconsistent': a single volume, neither the first nor (with three or more volumes) the
+    # last, was acquired in the opposite slice order
+    odd_vol = 1 if T * V >= 3 else T * V - 1
     # gantry tilt: successive slices are displaced in-plane as well as along the normal
     shear = force.get('shear', r.choice([[0.0, 0.0]] * 5 + [[r.choice([0.5, -0.75, 1.0]), r.choice([0.0, 0.25, -1.5])]]))
     # slice thickness / spacing as written in the headers (may disagree with the positions, may be negative)
@@ -131,6 +136,8 @@ def gen_series(r, tier='quick', **force):
                 if slice_t is not None:
                     st = slice_t[s]
                     if acq_pat == 'inconsistent' and (t + v) % 2 == 1:
+                        st = S - 1 - st
+                    if acq_pat == 'one_inconsistent' and (t + T * v) == odd_vol and T * V > 1:
                         st = S - 1 - st
                     sec = 36000 + 100 * (t + T * v) + st * 0.5
                     meta['AcquisitionTime'] = '%02d%02d%02d.%06d' % (sec // 3600, (sec % 3600) // 60, int(sec % 60),
